@@ -20,7 +20,11 @@ META = dict(
          "share-name list equal the original's with exactly the renamed segment substituted (build refusals must agree too).  "
          "Oracle 2 (from the written form): the set of program entity names occurring as segments of the resolved path equals the "
          "set the written form resolves through (me/main/explicit framer, frame, actor); absolute and root/inode-relative "
-         "references contain none.",
+         "references contain none.  Frame-name collision family: a moot framer cloned as a named auxiliary, or reared at run time "
+         "as an insular clone (program run 3 ticks), whose inner / outer frame carries the same name as its main frame and/or the "
+         "frame over the main frame (7 name patterns), with distinct via inodes on every frame, framer, clone and doer, and the 15 "
+         "root-, inode-, frame- and actor-relative lines inside the clone; renaming ONE of two namesake frames (or any other "
+         "entity) must leave every path that does not go through it unchanged (oracle 1 with the fresh name mapped back).",
     note="Inode prefixes are name-free, so oracle 2 is exact about names but says nothing about the literal inode segments; "
          "their layout is only checked for renaming invariance (oracle 1).  `as mine` insular clones (generated tags) and the "
          "`do .. as name via/per` parsing defect of C15 are avoided by writing `at enter` after the doer name.",
@@ -219,7 +223,7 @@ def cases(tier):
         for placement in PLACEMENTS:
             for slot in SLOTS:
                 if tier != "thorough" and cname != "I0" and slot[0] not in QUICK_VIA_SLOTS:
-                    continue      # quick: the remaining slots share parseIndirect/resolvePath with these; all slots at I0
+                    continue      # quick: the other 7 slots go through the same parseIndirect/resolvePath; all 17 slots at I0
                 for form in FORMS:
                     flags = form[3]
                     if slot[3] == "per" and "p" not in flags:
@@ -348,7 +352,7 @@ def check_collision(real, addr, p, case):
     p.nontrivial(tag + "|" + where)
     p.outcome("collision family: built (%s)" % ("colliding names" if pattern else "distinct names"))
     mine = sorted(set(v[0] for v in orig[1].values() if v[1] == line))
-    if not mine:
+    if not mine and lid != "do-for":      # a `for` source only shows in the store's share names
         p.violation("%s|no-reference-found" % tag, where, "line `%s` built but no resolved reference was found for it "
                     "(clone not created?)" % line, rep)
         return
@@ -604,6 +608,9 @@ def run():
                              collision_renamings_per_program=len(PLACEHOLDERS) + len(CENTITIES), forms=[f[0] for f in FORMS],
                              slots=[s[0] for s in SLOTS], placements=PLACEMENTS, via_configurations=[c[0] for c in icfgs(core.TIER)])
     ck.assumptions = [
+        "frames of different framers that carry the same name are different entities: renaming one of them renames its "
+        "declaration, its `in`/`first`/`rear .. in frame` uses inside its own framer and nothing else",
+        "an insular clone's tag is <original framer name><count>; renaming the original renames that component",
         "a named clone's framer name is <main framer>_<tag>; both components count as names the clone's framer-relative references "
         "resolve through, and either renaming substitutes its component",
         "entity names are lower-case single words, so nameToPath(actor name) is the lower-cased name and every occurrence of a name "
